@@ -118,6 +118,36 @@ def run(ctx):
                            "broken": "certificate no_stuck_ok (hypothesis of c10_ok_consumes_all)"}, found_input=path is not None)
         elif w != "ok":
             ctx.violation("wf:%s:%s" % (r["name"], " ".join(r["flags"])), "certificate check failed: " + w[:60], {"program": r["src"], "flags": r["flags"]}, found_input=False)
+    # known finding (found by the C01 validator): one witness, re-checked on every run
+    WSRC = """out int{signed, size 1} n0; out unterminated str[2] s0; out str[3] s1 = "a\\x00"; finishcode F0, F1; yieldcode Y0, Y1;
+parser {
+    try { "#"; } catch { if n0 != 0 { n0 = [n0 + 1]; } }
+    if n0 > 1 && 10 != 1 || 10 == 100 && 0 <= 1 {
+        case { "bcch", "efa" -> { if n0 < 3 { s0 += [2]; } } "cfe"i, "gcf" -> { s1 += "dY"i; } }
+    }
+    elif s0.len == n0 && n0 != 255 { if s0.len > 2 { finish F1; } else { delete s1; } }
+    else { if s1.len > n0 { loop { "80 ff 62"b; } } yield Y0; yield Y1; }
+}
+"""
+    wflags = ["-O0", "-fyield-support"]
+    wr = nm.compile_source(WSRC, wflags, want_c=True)
+    if wr["verdict"] == "ok":
+        wm = wr["machines"]["post_optimize"]
+        ww = mach.run_machk([mach.task_wf(wm)])[0]
+        if ww.startswith("stuck"):
+            wd = os.path.join(common.BUILD, "c10", "witness")
+            Pw = cdrv.prepare(WSRC, wflags, wd)
+            obs = None
+            if Pw["ok"]:
+                rc_, lines_, _ = cdrv.run_c(Pw["wd"], Pw["cp"].init_vals() + "\nrun 1 1 0 0\n")
+                obs = [l for l in lines_ if l.strip() != "--"]
+                shutil.rmtree(wd, ignore_errors=True)
+            ctx.violation("stuck-ok:witness:action-only-handler-before-if",
+                          "feed returns OK without consuming its chunk: a state all of whose transitions have empty symbol sets (copies of the stand-in start state append_after builds for an if statement, culled to nothing) is entered from the action-only catch handler",
+                          {"program": WSRC, "flags": wflags, "input": [0], "certificate": ww, "binary": obs,
+                           "broken": "certificate no_stuck_ok (hypothesis of c10_ok_consumes_all)"}, found_input=True)
+        else:
+            ctx.log("witness: the stuck-state finding no longer reproduces (%s)" % ww[:40])
     nviol = 0
     for r in good:
         for v in r["viol"]:
